@@ -344,6 +344,16 @@ def c09(ctx):
               0xfffffffe, 0xffffffff] + [r.randint(0, 0xffffffff) for _ in range(300 if quick else 100000)] \
             + [r.randint(0, 0x110000) for _ in range(300 if quick else 20000)]:
         add('esc-U', '%s \\U%08X%s 0\n' % (r.choice(['DATA', 'AUX', 'IGNORE', 'MANIFEST', 'DIST']), v, r.choice(['', 'x'])))
+    # escape sequences written with decimal digits that are not ASCII (Arabic-Indic, full-width, Devanagari, mathematical): not hex digits
+    for dg in ['\u0663', '\uff14', '\u0967', '\U0001d7d7', '\u0660', '\u06f5']:
+        for tag in ('DATA', 'IGNORE', 'DIST'):
+            tail = '' if tag == 'IGNORE' else ' 0'
+            add('esc-nonascii-digits', '%s a\\x%s%s%s\n' % (tag, dg, dg, tail))
+            add('esc-nonascii-digits', '%s a\\x4%s%s\n' % (tag, dg, tail))
+            add('esc-nonascii-digits', '%s \\u%s%s\n' % (tag, dg * 4, tail))
+            add('esc-nonascii-digits', '%s \\u00%s1b%s\n' % (tag, dg, tail))
+            add('esc-nonascii-digits', '%s \\U%s%s\n' % (tag, dg * 8, tail))
+            add('esc-nonascii-digits', '%s \\U0000004%s%s\n' % (tag, dg, tail))
     texts = [t for t in texts if not has_surrogate(t)]
     im = [impl.load(t, 0) for t in texts]
     rej = sum(1 for x in im if x[0] == 'err')
